@@ -542,7 +542,9 @@ func c16ErrTail(err error) string {
 	// the innermost cause is on the last line that is not a position
 	lines := strings.Split(err.Error(), "\n")
 	line := lines[0]
-	for i := len(lines) - 1; i > 0; i-- {
+	for i := len(lines) - 1; i > 0 && !strings.HasPrefix(lines[0], "MRO ParseError"); i-- {
+		// (a parse error says what it is on its first line; the lines below
+		// quote the source and point at the column)
 		l := strings.TrimSpace(lines[i])
 		if l != "" && !strings.HasPrefix(l, "at ") && !strings.HasPrefix(l, "included from") {
 			line = l
